@@ -19,14 +19,11 @@ def split_model(B, st, s, args, kwargs, node):
     # at least one part; number of parts = occurrences of sep + 1 (not expanded); no part contains sep (single-char sep)
     st.assume(n >= 1)
     arr = z3.Select(st.eltmap(z3.StringSort()), res.ref)
-    k = z3.Int("sp!")
-    st.assume(FA([k], z3.Implies(z3.And(k >= 0, k < n), z3.Not(z3.Contains(z3.Select(arr, k), sep.t))),
-                        patterns=[z3.Select(arr, k)]))
     st.assume(z3.Implies(z3.Not(z3.Contains(s.t, sep.t)), z3.And(n == 1, z3.Select(arr, 0) == s.t)))
     st.assume(z3.Implies(z3.Contains(s.t, sep.t), n >= 2))
     st.ghost = dict(st.ghost)
     sp = dict(st.ghost.get("splits", {}))
     sp[str(res.ref)] = (s, sep)
     st.ghost["splits"] = sp
-    eng.used_assumptions.add("str.split(sep): >= 1 parts, none containing sep; exactly one part (the string itself) iff sep does not occur")
+    eng.used_assumptions.add("str.split(sep): >= 1 parts, exactly one part (the string itself) iff sep does not occur")
     return res
